@@ -23,6 +23,32 @@ pub enum ServerCommand {
     Shutdown,
 }
 
+/// Write a reply while still listening to the session's command channel: a peer that stops reading
+/// must not keep the session from ending when it is evicted (channel closed) or the server shuts
+/// down. A decode level received meanwhile is returned and applies once the reply is written.
+async fn write_reply(
+    io: &mut PhysLayer,
+    bytes: &[u8],
+    decode: DecodeLevel,
+    commands: &mut tokio::sync::mpsc::Receiver<ServerCommand>,
+) -> Result<DecodeLevel, RequestError> {
+    let mut level = decode;
+    let write = io.write(bytes, decode.physical);
+    tokio::pin!(write);
+    loop {
+        tokio::select! {
+            res = &mut write => {
+                res?;
+                return Ok(level);
+            }
+            cmd = commands.recv() => match cmd {
+                None | Some(ServerCommand::Shutdown) => return Err(RequestError::Shutdown),
+                Some(ServerCommand::ChangeDecoding(x)) => level = x,
+            },
+        }
+    }
+}
+
 pub(crate) struct SessionTask<T>
 where
     T: RequestHandler,
@@ -78,7 +104,8 @@ where
         // do not answer on broadcast
         if header.destination != FrameDestination::Broadcast {
             let bytes = self.writer.format_ex(header, func, ex, self.decode)?;
-            io.write(bytes, self.decode.physical).await?;
+            let level = write_reply(io, bytes, self.decode, &mut self.commands).await?;
+            self.decode = level;
         }
         Ok(())
     }
@@ -237,7 +264,8 @@ where
                     &mut self.writer,
                     self.decode,
                 )?;
-                io.write(reply, self.decode.physical).await?;
+                let level = write_reply(io, reply, self.decode, &mut self.commands).await?;
+                self.decode = level;
             }
             FrameDestination::Broadcast => match request.into_broadcast_request() {
                 None => {
